@@ -127,6 +127,17 @@ def findChar? (p : Char → Bool) : Text → Option Nat
   | [] => none
   | c :: cs => if p c then some 0 else (findChar? p cs).map (· + utf8Len c)
 
+/-- Rust `str::lines`: split on `\n`, a trailing `\r` of each line is removed, and a final
+    empty piece (text ending in a newline) is not a line -/
+def linesAux : Text → Text → List Text
+  | [], cur => if cur.isEmpty then [] else [cur.reverse]
+  | c :: cs, cur =>
+    if c == '\n' then
+      (match cur with | '\r' :: r => r.reverse | _ => cur.reverse) :: linesAux cs []
+    else linesAux cs (c :: cur)
+
+def lines (t : Text) : List Text := linesAux t []
+
 def intercalate (sep : Text) : List Text → Text
   | [] => []
   | [a] => a
